@@ -46,6 +46,7 @@ from mashumaro.core.meta.helpers import (
     is_union,
     is_unpack,
     not_none_type_arg,
+    plain_str,
     resolve_type_params,
     substitute_type_params,
     type_name,
@@ -731,12 +732,17 @@ def pack_typed_dict(spec: ValueSpec) -> Expression:
         spec.origin_type
     ]
     annotations = {
-        k: resolved.get(v, v)
+        plain_str(k): resolved.get(v, v)
         for k, v in spec.origin_type.__annotations__.items()
     }
     all_keys = list(annotations.keys())
-    required_keys = getattr(spec.type, "__required_keys__", all_keys)
-    optional_keys = getattr(spec.type, "__optional_keys__", [])
+    required_keys = [
+        plain_str(k)
+        for k in getattr(spec.type, "__required_keys__", all_keys)
+    ]
+    optional_keys = [
+        plain_str(k) for k in getattr(spec.type, "__optional_keys__", [])
+    ]
     lines = CodeLines()
     method_name = (
         f"__pack_typed_dict_{spec.builder.cls.__name__}_"
